@@ -483,7 +483,9 @@ def c05_discs(prop, recs, jobs, verdicts):
     for rec in recs:
         j = byid[rec["id"]]
         if rec["error"]:
-            kind = "search-hangs" if rec["error"].startswith("HANG") else "search-panics"
+            if rec["error"].startswith("SLOW") and j["mode"] == "depth":
+                continue        # a fixed-depth search may take as long as it takes: counted, not judged
+            kind = "search-hangs" if rec["error"].startswith("HANG") else "search-does-not-stop" if rec["error"].startswith("SLOW") else "search-panics"
             d(kind, kind + "/" + j["mode"], rec, {"error": rec["error"], "tag": j["tag"], "cfg": j["cfg"]})
             continue
         v = verdicts[rec["id"]]
@@ -582,6 +584,7 @@ def check_C05(tier):
     ck.cov["samples"] = [{"fen": r["fen"], "mode": r["mode"], "best": fenspec.mv_uci(r["best"]) if r["best"] >= 0 else None,
                           "pv": [fenspec.mv_uci(m) for m in r["pv"]], "info_lines": len(r["infos"])} for r in recs[:3]]
     ck.cov["jobs_by_family"] = {t: sum(1 for j in jobs if j["tag"] == t) for t in sorted({j["tag"] for j in jobs})}
+    ck.cov["slow_fixed_depth_searches_not_judged"] = sum(1 for r in recs if (r["error"] or "").startswith("SLOW"))
     return ck.finish()
 
 
@@ -623,6 +626,8 @@ def check_C07(tier):
     # terminal classifications, de-duplicated by position and kind
     events = {}
     for r in recs:
+        if r["error"] and r["error"].startswith("SLOW"):
+            continue
         if r["error"]:
             d = {"prop": "C07", "kind": "search-fails", "sig": "search-fails", "fen": r["fen"], "detail": r["error"], "replay": {"job": byid[r["id"]]}}
             ck.discs.append(d)
@@ -777,6 +782,8 @@ def check_C13(tier):
     slow = []
     for r in recs:
         j = byid[r["id"]]
+        if r["error"] and r["error"].startswith("SLOW") and j["mode"] == "depth":
+            continue
         if r["error"]:
             disc("search-fails", "search-fails", r["fen"], r["error"], {"job": j})
             continue
@@ -929,6 +936,8 @@ def check_C06(tier):
         j = byid[r["id"]]
         kind, iid, bits = j["tag"].split(":")
         iid, bits = int(iid), int(bits)
+        if r["error"] and r["error"].startswith("SLOW"):
+            continue
         if r["error"]:
             disc("search-fails", "search-fails", r["fen"], r["error"], j)
             continue
@@ -1984,8 +1993,14 @@ def check_C19(tier):
     cnt["builds"] += 1
     import re
     for blk in races.split("WARNING: DATA RACE")[1:]:
-        tops = re.findall(r"^\s+(\S+)\(.*?\)\n\s+(\S+?):(\d+)", blk, re.M)
-        if any("/internal/openingbook" in t[1] for t in tops[:6]):
+        # a report counts for this property when the two conflicting accesses are made by the book code itself (the shared
+        # book map and its entries): the innermost engine frame of both stacks lies in internal/openingbook
+        tops = []
+        for stk in re.split(r"\n\n", blk.strip())[:2]:
+            fr = [f for f in re.findall(r"^\s+(\S+)\(.*?\)\n\s+(\S+?):(\d+)", stk, re.M) if "/internal/" in f[1]]
+            if fr:
+                tops.append(fr[0])
+        if len(tops) == 2 and all("/internal/openingbook/" in t[1] for t in tops):
             disc("data-race", "race/openingbook", blk[:1200])
     # ---- 6. replay of TLC interleavings through the scheduler gate of addToBook
     shortg = sorted(set(g[:3] for g in games))
